@@ -270,3 +270,14 @@ def f_call_result(E, node):
         if q == qual:
             return res
     raise Unsupported('no logged call of %s' % qual)
+
+
+@form('local')
+def f_local(E, node):
+    """local('name'): the value of a local variable of the function at the point where the clause is evaluated
+    (ties the clause to an implementation detail: if the local disappears the obligation is lost, not failed)"""
+    name = E.eval(node.args[0])
+    env = getattr(E, 'final_env', None) or {}
+    if name not in env:
+        raise Unsupported('no local %s at this point' % name)
+    return env[name]
